@@ -357,7 +357,8 @@ impl ReqAlphabet {
             }
             cur = next;
         }
-        let versions = ["0.5.0", "1.0.0", "1.5.0", "2.0.0", "2.5.0", "3.0.0", "3.5.0"]
+        // pre-releases of the range bounds sort *before* the bound (semver precedence)
+        let versions = ["0.5.0", "1.0.0-alpha", "1.0.0", "1.5.0", "2.0.0-rc.1", "2.0.0", "2.5.0", "3.0.0-0", "3.0.0", "3.5.0"]
             .iter()
             .map(|v| {
                 let rv = RV::parse(v);
